@@ -57,6 +57,12 @@ func main() {
 		res := rn.exec(p, true)
 		rn.runWhole(p, res)
 		o.Count("final:" + res.state)
+		if p.expect != "" && p.expect != res.state {
+			o.Fail("limit-"+strings.TrimPrefix(p.kind, "corpus:"), k, "expected %s, got %s after %d instructions", p.expect, res.state, res.steps)
+		}
+		if p.maxSteps != 0 && p.maxSteps != res.steps {
+			o.Fail("limit-"+strings.TrimPrefix(p.kind, "corpus:"), k, "expected %d executed instructions, got %d (%s)", p.maxSteps, res.steps, res.state)
+		}
 		o.Count("final:" + strings.SplitN(p.kind, ":", 2)[0] + ":" + res.state)
 		if res.cyclic {
 			o.Count("case:cyclic-structure-built")
